@@ -237,8 +237,16 @@ fn mid<'a, 'e, T: IteTable<'a, BddPtr<'a>> + Default>(b: &'a RobddBuilder<'a, T>
     }
     // quick: the core operands; thorough: every operand of the families (n = 8) resp. the core and every second other (n = 10)
     let mut core: Vec<usize> = (0..ops.len()).filter(|&i| ops[i].1 == 0 || (ctx.tier == Tier::Thorough && (n <= 8 || i % 2 == 0))).collect();
+    if n > 10 && ctx.tier == Tier::Quick {
+        core = core.into_iter().step_by(2).collect();
+    }
     if cfg.issue % 2 == 1 {
         core.reverse();
+    }
+    // pool 5: a larger size (13 variables) for the unary operations only
+    let unary_only = cfg.pool == 5;
+    if unary_only {
+        core.clear();
     }
     // all ordered pairs of the core operands
     'pairs: for (ci, &i) in core.iter().enumerate() {
@@ -263,7 +271,7 @@ fn mid<'a, 'e, T: IteTable<'a, BddPtr<'a>> + Default>(b: &'a RobddBuilder<'a, T>
         }
     }
     // unary operations on every operand and on conjunctions / exclusive ors of neighbouring operands
-    let mut subjects: Vec<(String, BddPtr<'a>, Big)> = ops.iter().map(|o| (o.0.clone(), o.2, o.3.clone())).collect();
+    let mut subjects: Vec<(String, BddPtr<'a>, Big)> = ops.iter().enumerate().filter(|(i, o)| !unary_only || o.1 == 0 || i % 4 == 0).map(|(_, o)| (o.0.clone(), o.2, o.3.clone())).collect();
     for w in core.windows(2).step_by(3) {
         let (i, j) = (w[0], w[1]);
         let nm = format!("xor({}, {})", ops[i].0, ops[j].0);
@@ -290,12 +298,13 @@ fn mid<'a, 'e, T: IteTable<'a, BddPtr<'a>> + Default>(b: &'a RobddBuilder<'a, T>
         }
         // partial models of every length: the first k variables of a rotation, alternating values
         let width = s.cfg.manager_vars();
-        for k in 1..=nn {
-            let start = (si + k) % nn;
+        for kk in 0..(if unary_only { 3 * nn } else { nn }) {
+            let (k, variant) = (1 + kk % nn, kk / nn);
+            let start = (si + k + 5 * variant) % nn;
             let mut lits: Vec<Literal> = Vec::new();
             let mut want = x.clone();
             for t in 0..k {
-                let v = (start + t * 3) % nn;
+                let v = (start + t * (3 + 2 * variant)) % nn;
                 if lits.iter().any(|q| q.label() == s.lbl(v)) {
                     continue;
                 }
@@ -328,7 +337,7 @@ fn mid<'a, 'e, T: IteTable<'a, BddPtr<'a>> + Default>(b: &'a RobddBuilder<'a, T>
         }
     }
     // ite: all triples of a pool, and the aliased / degenerate shapes for every ordered pair of the pool
-    let pool: Vec<usize> = core.iter().cloned().step_by((core.len() / ctx.tier.pick(14, 28)).max(1)).collect();
+    let pool: Vec<usize> = if unary_only { vec![] } else { core.iter().cloned().step_by((core.len() / ctx.tier.pick(14, 28)).max(1)).collect() };
     for &i in pool.iter() {
         if s.rep.n_violations > 24 {
             break;
@@ -354,7 +363,7 @@ fn mid<'a, 'e, T: IteTable<'a, BddPtr<'a>> + Default>(b: &'a RobddBuilder<'a, T>
     }
     s.recheck();
     // list operations with 4 .. 2n elements (windows over the operands, with repeated and complementary elements)
-    for len in (4..=2 * nn).step_by(1) {
+    for len in (4..=(if unary_only { 0 } else { 2 * nn })).step_by(1) {
         for start in (0..ops.len()).step_by(ctx.tier.pick(9, 3)) {
             let mut ps: Vec<BddPtr<'a>> = Vec::new();
             let mut conj = Big::konst(nn, true);
@@ -373,7 +382,7 @@ fn mid<'a, 'e, T: IteTable<'a, BddPtr<'a>> + Default>(b: &'a RobddBuilder<'a, T>
         }
     }
     // variables added at run time (n + 1, n + 2): old results keep their meaning, new ones combine with them
-    for round in 0..2usize {
+    for round in 0..(if unary_only { 0usize } else { 2 }) {
         if s.rep.n_violations > 0 {
             break;
         }
@@ -476,13 +485,26 @@ pub fn run(ctx: &Ctx) -> Report {
             }
         }
     }
+    // a size that is neither a power of two nor round: 11 variables (identity and scrambled order), with a thinner
+    // all-pairs phase (see `mid`)
+    {
+        let n = 11usize;
+        for (i, o) in orders(n).into_iter().enumerate() {
+            if i == 0 || i == 3 || ctx.tier == Tier::Thorough {
+                items.push((i, o, vec![]));
+            }
+        }
+    }
+    // 13 variables, unary operations only (conditioning on partial models of 1 to 13 literals, three choices each)
+    items.push((300, (0..13).collect(), vec![]));
+    items.push((301, (0..13).map(|i| (i * 5 + 2) % 13).collect(), vec![]));
     // huge managers in label order and in reversed label order: levels and labels on both sides of 2^8 and 2^16
-    for (k, lab) in [vec![0usize, 1, 127, 128, 255, 256, 257, 299], vec![2, 255, 256, 65534, 65535, 65536, 65540, 65590]].into_iter().enumerate() {
+    for (k, lab) in [vec![0usize, 1, 127, 128, 255, 256, 257, 299], vec![2, 255, 256, 65534, 65535, 65536, 65540, 65590], vec![5, 90, 100, 101, 999, 1000, 4999, 5000]].into_iter().enumerate() {
         items.push((100 + k, (0..8).collect(), lab.clone()));
         items.push((200 + k, (0..8).rev().collect(), lab));
     }
     let r = par_run(ctx, &items, |_, (i, o, labels)| {
-        let pool = if *i >= 200 { 4 } else if *i >= 100 { 3 } else { 2 };
+        let pool = if *i >= 300 { 5 } else if *i >= 200 { 4 } else if *i >= 100 { 3 } else { 2 };
         let base = Cfg { n: o.len(), order: o.clone(), cache: CacheKind::All, table_cap: 2, issue: *i + ctx.seed as usize, ite_pool: 0, full_ite: false, pool, labels: labels.clone() };
         let (mut r, dig) = run_cfg(&base, None, ctx);
         r.add_extra("mid_scale_configurations", 1);
@@ -496,7 +518,7 @@ pub fn run(ctx: &Ctx) -> Report {
         }
         r
     });
-    rep.bound("Rmid", json!({"variables": sizes, "orders": "identity, reversed, interleaved halves, scrambled", "wide_managers": "labels 0,31,32,33,63,64,65,127(,128,129) spread over a 130-variable manager; labels 0,1,127,128,255,256,257,299 and 2,255,256,65534,65535,65536,65540,65590 in managers in label order and in reversed label order (level = label)", "operands": "rule-defined families (literals, 2-literal cubes/clauses, parities, long cubes/clauses, thresholds, comparator, adder carry, multiplexers, implication chain, at-most-one)", "caches": ["all (table capacity 2)", "lru-default (default table)", "lru-2^3 (table capacity 2)"], "operations": "all ordered pairs of the core operands x and/or/xor/iff; negate, condition, exists on every variable, condition_model for every length, compose; ite over all triples of a pool and the aliased shapes; and_lst/or_lst of 4..2n elements; two variables added at run time"}));
+    rep.bound("Rmid", json!({"variables": sizes, "orders": "identity, reversed, interleaved halves, scrambled", "wide_managers": "labels 0,31,32,33,63,64,65,127(,128,129) spread over a 130-variable manager; labels 0,1,127,128,255,256,257,299 / 2,255,256,65534,65535,65536,65540,65590 / 5,90,100,101,999,1000,4999,5000 in managers in label order and in reversed label order (level = label)", "eleven_variables": "identity and scrambled order (all four orders in thorough), every second core operand in the all-pairs phase", "operands": "rule-defined families (literals, 2-literal cubes/clauses, parities, long cubes/clauses, thresholds, comparator, adder carry, multiplexers, implication chain, at-most-one)", "caches": ["all (table capacity 2)", "lru-default (default table)", "lru-2^3 (table capacity 2)"], "operations": "all ordered pairs of the core operands x and/or/xor/iff; negate, condition, exists on every variable, condition_model for every length, compose; ite over all triples of a pool and the aliased shapes; and_lst/or_lst of 4..2n elements; two variables added at run time"}));
     rep.merge(r);
     rep
 }
